@@ -149,7 +149,12 @@ func (w *requestWriter) encodeHeaders(req *http.Request, addGzipHeader bool, tra
 		// followed by the query production (see Sections 3.3 and 3.4 of
 		// [RFC3986]).
 		f(":authority", host)
-		f(":method", req.Method)
+		// An empty Method means GET (see the documentation of http.Request.Method).
+		method := req.Method
+		if method == "" {
+			method = http.MethodGet
+		}
+		f(":method", method)
 		if req.Method != http.MethodConnect || isExtendedConnect {
 			f(":path", path)
 			f(":scheme", req.URL.Scheme)
